@@ -5,7 +5,11 @@ the calling thread is still the owner (wrapper `_early_return`: disabled -> retu
 which raises TracingAbortedException for an abandoned thread); the trace is only ever reached
 through the thread-local state; no handler on an exec path swallows the abort; the executor joins
 the thread with timeouts bounded by the configured maximum, stops the tracer on expiry and returns
-a fresh timeout result instead of anything the abandoned thread produced.
+a fresh timeout result instead of anything the abandoned thread produced; the waits are positive for
+test cases of any size (interpreted, the empty one included).  The ownership protocol (__enter__,
+__exit__, stop, check) is interpreted over schedules of two execution threads and the executor: an
+abandoned thread that unwinds later never takes the tracer from the thread that runs by then.  An
+executor that runs a test twice starts the second run only after `not timeout`.
 The wall-clock bound itself is not decided.
 """
 
